@@ -25,6 +25,22 @@ theorem termCellW_eq (pix cells : Int) : termCellW pix cells = termCell pix cell
 theorem termCellH_eq (pix cells : Int) : termCellH pix cells = termCell pix cells := by
   unfold termCellH; rw [cellPixelSize_shape.2]; exact termCellWith_std pix cells
 
+theorem resizeShape_std : kittyResize = ⟨true, true, true, true, true⟩ ∧ sixelResize = ⟨true, true, true, true, true⟩ := by
+  decide
+
+theorem protoCellSizeWith_std (F : FloatOps) (wPix hPix w h cellW cellH : Nat) :
+    protoCellSizeWith ⟨true, true, true, true, true⟩ F wPix hPix w h cellW cellH = protoCellSize F wPix hPix w h cellW cellH := rfl
+
+theorem kittyCellSizeTerm_eq (F : FloatOps) (wPix hPix w h : Nat) (xpix cols ypix rows : Int) :
+    kittyCellSizeTerm F wPix hPix w h xpix cols ypix rows = protoCellSizeTerm F wPix hPix w h xpix cols ypix rows := by
+  unfold kittyCellSizeTerm protoCellSizeTerm
+  rw [resizeShape_std.1, protoCellSizeWith_std]
+
+theorem sixelCellSizeTerm_eq (F : FloatOps) (wPix hPix w h : Nat) (xpix cols ypix rows : Int) :
+    sixelCellSizeTerm F wPix hPix w h xpix cols ypix rows = protoCellSizeTerm F wPix hPix w h xpix cols ypix rows := by
+  unfold sixelCellSizeTerm protoCellSizeTerm
+  rw [resizeShape_std.2, protoCellSizeWith_std]
+
 theorem termCell_pos (pix cells : Int) : 0 < termCell pix cells := by
   unfold termCell
   split
